@@ -542,6 +542,8 @@ class SigmaCorrelationRule(SigmaRuleBase, ProcessingItemTrackingMixin):
                         f"'{ correlation_type }' is no valid Sigma correlation type", source=source
                     )
                 )
+                if not isinstance(correlation_type, str):
+                    correlation_type = None
         else:  # no correlation type provided
             errors.append(
                 sigma_exceptions.SigmaCorrelationTypeError(
